@@ -381,7 +381,8 @@ func (d *MarchingCanvas) AddFieldParallel2(field Field) {
 	chunkSections := d.chunkSectionsInRange(min, max)
 
 	workers := runtime.NumCPU()
-	numJobs := len(chunkSections)
+	// one job per (Float1 attribute, block)
+	numJobs := len(chunkSections) * len(field.Float1Functions)
 	jobs := make(chan *job, numJobs)
 	results := make(chan *job, numJobs)
 
